@@ -141,6 +141,8 @@ pub struct Acc {
     pub m: u64,
     pub sum: Vec<f64>,
     pub sq: Vec<f64>,
+    /// sums of products of Gram-Schmidt coordinates i and i+lag (lag 1..=3), 3 x 2n values
+    pub cross: Vec<f64>,
     pub norm_sum: f64,
     pub over_bound: u64,
     pub max_norm: i64,
@@ -148,7 +150,7 @@ pub struct Acc {
 
 impl Acc {
     fn new(dirs: usize) -> Acc {
-        Acc { m: 0, sum: vec![0.0; dirs], sq: vec![0.0; dirs], norm_sum: 0.0, over_bound: 0, max_norm: 0 }
+        Acc { m: 0, sum: vec![0.0; dirs], sq: vec![0.0; dirs], cross: vec![0.0; 3 * dirs / 2], norm_sum: 0.0, over_bound: 0, max_norm: 0 }
     }
     fn to_blob(&self) -> Vec<u8> {
         let mut b = Vec::new();
@@ -156,7 +158,7 @@ impl Acc {
         b.extend_from_slice(&self.norm_sum.to_le_bytes());
         b.extend_from_slice(&self.over_bound.to_le_bytes());
         b.extend_from_slice(&self.max_norm.to_le_bytes());
-        for v in self.sum.iter().chain(self.sq.iter()) {
+        for v in self.sum.iter().chain(self.sq.iter()).chain(self.cross.iter()) {
             b.extend_from_slice(&v.to_le_bytes());
         }
         b
@@ -172,6 +174,9 @@ impl Acc {
         for i in 0..d {
             self.sum[i] += f(4 + i);
             self.sq[i] += f(4 + d + i);
+        }
+        for i in 0..self.cross.len() {
+            self.cross[i] += f(4 + 2 * d + i);
         }
     }
 }
@@ -268,6 +273,12 @@ fn run_chunk<V: Variant>(seed: u64, run: u64, key_index: usize, chunk: u64, pool
                         for (d, v) in p.iter().enumerate() {
                             acc.sum[d] += v;
                             acc.sq[d] += v * v;
+                        }
+                        let gs = &p[2 * n..];
+                        for lag in 1..=3usize {
+                            for i in 0..2 * n - lag {
+                                acc.cross[(lag - 1) * 2 * n + i] += gs[i] * gs[i + lag];
+                            }
                         }
                         st.distinct.insert(hash_bytes(key_index as u64, bytes));
                     }
@@ -396,6 +407,9 @@ fn evaluate(rep: &mut Report) {
         let norm_ratio = a.norm_sum / m / (2.0 * n as f64 * sigma * sigma);
         // per direction
         let dirs = 4 * n;
+        let a_sum = |d: usize| a.sum[d];
+        let a_sq = |d: usize| a.sq[d];
+        let a_cross = |_d: usize, lag: usize, i: usize| a.cross[(lag - 1) * 2 * n + i];
         let z_mean: Vec<f64> = (0..dirs).map(|d| (a.sum[d] / m) / (sigma / m.sqrt())).collect();
         let ratio: Vec<f64> = (0..dirs).map(|d| a.sq[d] / m / (sigma * sigma)).collect();
         let worst_mean = z_mean.iter().cloned().fold(0.0f64, |x, y| x.max(y.abs()));
@@ -419,13 +433,30 @@ fn evaluate(rep: &mut Report) {
                 pooled.push((format!("GS directions, norm quartile {}", b + 1), pool(&idx), 0.02));
             }
         }
+        // correlations between neighbouring Gram-Schmidt coordinates (leaf order): under the
+        // specification they are independent, so M * r^2 is chi-square(1) per pair
+        let mut corr_z = [0.0f64; 3];
+        for lag in 1..=3usize {
+            let mut t = 0.0;
+            let np = 2 * n - lag;
+            for i in 0..np {
+                let (a, b) = (2 * n + i, 2 * n + i + lag);
+                let cov = a_cross(a, lag, i) / m - (a_sum(a) / m) * (a_sum(b) / m);
+                let va = a_sq(a) / m - (a_sum(a) / m).powi(2);
+                let vb = a_sq(b) / m - (a_sum(b) / m).powi(2);
+                let r = cov / (va * vb).sqrt();
+                t += m * r * r;
+            }
+            corr_z[lag - 1] = (t - np as f64) / (2.0 * np as f64).sqrt();
+        }
         // chi-square-like dispersion of the direction means (detects a systematic mean shift)
         let mean_disp = z_mean[2 * n..].iter().map(|z| z * z).sum::<f64>() / (2 * n) as f64;
         table.push(json!({"variant": n, "key": key, "signatures": a.m, "mean_norm_ratio": (norm_ratio * 1e5).round() / 1e5,
             "pooled": pooled.iter().map(|(l, v, t)| json!([l, (v * 1e4).round() / 1e4, (t * 1e4).round() / 1e4])).collect::<Vec<_>>(),
             "worst_direction_mean_sigmas": (worst_mean * 100.0).round() / 100.0,
             "worst_direction_second_moment_dev": (worst_ratio * 1e4).round() / 1e4, "per_direction_tolerance": (tol * 1e4).round() / 1e4,
-            "gs_mean_dispersion": (mean_disp * 1e3).round() / 1e3, "max_norm": a.max_norm}));
+            "gs_mean_dispersion": (mean_disp * 1e3).round() / 1e3, "max_norm": a.max_norm,
+            "neighbour_correlation_z_lag1_2_3": corr_z.iter().map(|z| (z * 100.0).round() / 100.0).collect::<Vec<_>>()}));
         if a.over_bound > 0 {
             // already reported by the run itself
         }
@@ -440,6 +471,10 @@ fn evaluate(rep: &mut Report) {
         if worst_ratio > tol {
             let d = (0..dirs).max_by(|&x, &y| (ratio[x] - 1.0).abs().partial_cmp(&(ratio[y] - 1.0).abs()).unwrap()).unwrap();
             alarm("second moment along one direction", format!("direction {}: E<s,u>^2/sigma^2 = {:.4}, tolerance +-{:.4}, {} signatures", d, ratio[d], tol, a.m), rep);
+            continue;
+        }
+        if let Some(l) = (0..3).find(|&l| corr_z[l] > 8.0) {
+            alarm("correlated Gram-Schmidt coordinates", format!("lag {}: sum of M*r^2 over neighbouring leaf coordinates is {:.1} standard deviations above its expectation", l + 1, corr_z[l]), rep);
             continue;
         }
         if worst_mean > 6.0 || mean_disp > 1.0 + 8.0 * (2.0 / (2 * n) as f64).sqrt() {
@@ -482,7 +517,7 @@ pub fn check(tier: Tier, seed: u64) -> i32 {
     rep.rule = "a case is one signature in the history of one key: K keys x M signatures over distinct messages under healthy simulated entropy (E1), signed by 1-4 baton-scheduled threads sharing the key; for each signature (s1, s2) is recovered with the harness's own arithmetic and projected on the 2n normalised secret-basis rows and the 2n Gram-Schmidt (ffLDL leaf) directions; every signature is non-trivial; distinct = distinct signature bytes (plus one per key whose statistics were evaluated)".into();
     rep.assumptions = vec![
         "sigma from the specification (165.7366171829776 / 168.38857144654395)".into(),
-        "alarms: mean ||s||^2/(2n sigma^2) outside 1 +- 0.01; pooled second moment of a direction class outside 1 +- 0.02 (widened to 7 standard deviations of that statistic, computed from the spectrum of the class's Gram operator, where that is larger); a single direction outside 1 +- 7*sqrt(2/M); a direction mean beyond 6 standard errors or over-dispersed direction means; any ||s||^2 above floor(beta^2); fixed default seed".into(),
+        "alarms: mean ||s||^2/(2n sigma^2) outside 1 +- 0.01; pooled second moment of a direction class outside 1 +- 0.02 (widened to 7 standard deviations of that statistic, computed from the spectrum of the class's Gram operator, where that is larger); a single direction outside 1 +- 7*sqrt(2/M); a direction mean beyond 6 standard errors or over-dispersed direction means; the sum of M*r^2 over neighbouring Gram-Schmidt coordinates (lags 1-3, leaf order) more than 8 standard deviations above its expectation; any ||s||^2 above floor(beta^2); fixed default seed".into(),
         "detects distributional damage above these effect sizes only".into(),
         "no buggify and no entropy faults here: they would legitimately change the law".into(),
     ];
